@@ -152,6 +152,25 @@ type Store struct {
 	Cur, Committed map[string]tla.Value
 	Aux            []Aux
 	dirty          bool
+	changed        []string // variables assigned by the attempt in flight
+	// cells ("var" or "var|firstIndex") accessed / written by the attempt in flight (scheduler bookkeeping)
+	acc, wr map[string]bool
+}
+
+func (s *Store) resetAccess() {
+	s.acc = map[string]bool{} // handed over to a parked process, so not reused
+	if s.wr == nil {
+		s.wr = map[string]bool{}
+	} else {
+		clear(s.wr)
+	}
+}
+
+func cellKey(v string, path []tla.Value) string {
+	if len(path) == 0 {
+		return v
+	}
+	return v + "|" + path[0].String()
 }
 
 func NewStore() *Store {
@@ -174,7 +193,10 @@ func (s *Store) Init(name string, v tla.Value) {
 
 func (s *Store) abort() {
 	if s.dirty {
-		s.Cur = cpMap(s.Committed)
+		for _, k := range s.changed {
+			s.Cur[k] = s.Committed[k]
+		}
+		s.changed = s.changed[:0]
 		s.dirty = false
 	}
 	for _, a := range s.Aux {
@@ -184,7 +206,10 @@ func (s *Store) abort() {
 
 func (s *Store) commit() {
 	if s.dirty {
-		s.Committed = cpMap(s.Cur)
+		for _, k := range s.changed {
+			s.Committed[k] = s.Cur[k]
+		}
+		s.changed = s.changed[:0]
 		s.dirty = false
 	}
 	for _, a := range s.Aux {
@@ -271,6 +296,10 @@ func (r *MRes) cell() tla.Value {
 
 func (r *MRes) setCell(c tla.Value) {
 	r.St.dirty = true
+	if r.St.wr != nil {
+		r.St.wr[cellKey(r.Var, r.path)] = true
+	}
+	r.St.changed = append(r.St.changed, r.Var)
 	if len(r.path) == 0 {
 		r.St.Cur[r.Var] = c
 		return
@@ -283,6 +312,9 @@ func (r *MRes) ReadValue(iface distsys.ArchetypeInterface) (tla.Value, error) {
 		panic(fmt.Sprintf("simsched: read of %s with %d of %d indices", r.Var, len(r.path), r.Depth))
 	}
 	r.St.dirty = true // the attempt touched the store: abort must restore even if only aux state changed
+	if r.St.acc != nil {
+		r.St.acc[cellKey(r.Var, r.path)] = true
+	}
 	nc, y, err := r.Read(iface, r.path, r.cell())
 	if err != nil {
 		return tla.Value{}, err
@@ -294,6 +326,9 @@ func (r *MRes) ReadValue(iface distsys.ArchetypeInterface) (tla.Value, error) {
 func (r *MRes) WriteValue(iface distsys.ArchetypeInterface, v tla.Value) error {
 	if len(r.path) != r.Depth {
 		panic(fmt.Sprintf("simsched: write of %s with %d of %d indices", r.Var, len(r.path), r.Depth))
+	}
+	if r.St.acc != nil {
+		r.St.acc[cellKey(r.Var, r.path)] = true
 	}
 	nc, err := r.Write(iface, r.path, r.cell(), v.StripVClock())
 	if err != nil {
